@@ -380,6 +380,9 @@ class Model:
             return {"leaf": "enumRepr", "discs": discs, "variants": self.variant_names(it, features),
                     "caps": {"ser": "Serialize_repr" in d, "de": "Deserialize_repr" in d}}
         if sd.get("into") == "&str" or sd.get("try_from") == "&str":
+            for k_ in ("into", "try_from"):
+                if k_ in sd and sd[k_] != "&str":
+                    raise Untranslatable(key, f"serde({k_} = {sd[k_]!r}): only the borrowed-str representation is modelled")
             ser, de = self.str_enum_tables(it, features)
             return {"leaf": "enumStr", "ser": ser, "de": de, "variants": self.variant_names(it, features),
                     "caps": {"ser": "Serialize" in d, "de": "Deserialize" in d}}
@@ -414,6 +417,8 @@ class Model:
             if tr == f"From<{name}>" and st == "&str" and imp["module"] == mod:
                 m = self.single_match(imp, "from")
                 for arm in m["arms"]:
+                    if not effective_attrs(arm.get("attrs", []), features)[0]:
+                        continue
                     v = arm["pat"].replace(" ", "").split("::")[-1]
                     if v not in variants:
                         raise Untranslatable(name, f"From<{name}> for &str: odd arm {arm['pat']}")
@@ -421,6 +426,8 @@ class Model:
             if tr == "TryFrom<&str>" and st == name and imp["module"] == mod:
                 m = self.single_match(imp, "try_from")
                 for arm in m["arms"]:
+                    if not effective_attrs(arm.get("attrs", []), features)[0]:
+                        continue
                     pat = arm["pat"].replace(" ", "")
                     if pat == "_":
                         break
@@ -567,6 +574,46 @@ class Model:
             if f["name"] == name and (module is None or f.get("module") == module):
                 return f
         return None
+
+    STR_HELPERS = {
+        "deserialize_from_str_and_skip_if_too_long":
+            "{ let s : & 'de str = Deserialize :: deserialize (deserializer) ? ; match s . parse :: < String < L > > () "
+            "{ Ok (string) => Ok (Some (string)) , Err (_err) => { Ok (None) } } }",
+        "deserialize_from_str_and_truncate":
+            "{ let s : Option < & str > = serde :: Deserialize :: deserialize (deserializer) ? ; Ok (s . map (truncate)) }",
+        "truncate":
+            "{ let split = floor_char_boundary (s , L) ; let mut truncated = String :: new () ; "
+            "truncated . push_str (& s [.. split]) . unwrap () ; truncated }",
+        "floor_char_boundary":
+            "{ if index >= s . len () { s . len () } else { let lower_bound = index . saturating_sub (%WIN%) ; "
+            "let new_index = s . as_bytes () [lower_bound ..= index] . iter () . rposition (| b | is_utf8_char_boundary (* b)) ; "
+            "unsafe { lower_bound + new_index . unwrap_unchecked () } } }",
+        "is_utf8_char_boundary": "{ (b as i8) >= - 0x40 }",
+    }
+
+    def check_str_helpers(self):
+        """the five string helpers behind the lossy readers must be the bodies the model describes
+        (modulo local names and logging); the look-back window is a parameter"""
+        for name, tmpl in self.STR_HELPERS.items():
+            f = self.find_fn(name, "webauthn")
+            if f is None:
+                raise Untranslatable(name, "function not found")
+            body = re.sub(r"\b(?:debug_now|debug|info_now|info|trace|warn|error|error_now) ! \((?:[^()]|\([^()]*\))*\) ; ", "", f["body"])
+            if name == "floor_char_boundary":
+                m = re.search(r"saturating_sub \(\s*(\w+)\s*\)", body)
+                tmpl = tmpl.replace("%WIN%", m.group(1) if m else "?")
+            if self.alpha(body) != self.alpha(tmpl):
+                raise Untranslatable(name, "body is not the one the model describes")
+        imp = self.manual_impl("Deserialize", "Icon", "webauthn")
+        b = " ".join(f.get("body") or "" for f in (imp["items"] if imp else []) if f["kind"] == "fn")
+        if self.alpha(b) != self.alpha("{ let _s : & 'de str = Deserialize :: deserialize (deserializer) ? ; Ok (Self) }"):
+            raise Untranslatable("Icon::deserialize", "body is not `read a borrowed str, discard it`")
+        imp = self.manual_impl("Serialize", "FilteredPublicKeyCredentialParameters", "webauthn")
+        b = " ".join(f.get("body") or "" for f in (imp["items"] if imp else []) if f["kind"] == "fn")
+        if self.alpha(b) != self.alpha("{ use serde :: ser :: SerializeSeq ; let mut seq = serializer . serialize_seq (Some (self . 0 . len ())) ? ; "
+                                       "for element in & self . 0 { let el : PublicKeyCredentialParameters = element . clone () . into () ; "
+                                       "seq . serialize_element (& el) ? } seq . end () }"):
+            raise Untranslatable("FilteredPublicKeyCredentialParameters::serialize", "body is not `one entry per element, in order`")
 
     def truncate_window(self):
         f = self.find_fn("floor_char_boundary")
@@ -812,7 +859,7 @@ class Model:
         feats = frozenset()
         t = {}
         groups = [("op", self._t_op), ("resp", self._t_resp), ("status", self._t_status), ("bitflags", self._t_bitflags),
-                  ("dispatch", self._t_dispatch), ("consts", self._t_consts), ("fingerprints", self._t_fingerprints),
+                  ("dispatch", self._t_dispatch), ("consts", self._t_consts), ("strhelpers", self._t_strhelpers), ("fingerprints", self._t_fingerprints),
                   ("gating", self._t_gating), ("layouts", self._t_layouts), ("u2fprog", self._t_u2fprog), ("arb", self._t_arb)]
         for aspect, fn in groups:
             part = {}
@@ -827,6 +874,8 @@ class Model:
         if baseline is not None:
             for k, v in baseline.get("tables", {}).items():
                 t.setdefault(k, v)
+            if t.get("consts", {}).get("truncate_window") is None:
+                t["consts"]["truncate_window"] = baseline["tables"]["consts"]["truncate_window"]
         return t
 
     def _t_op(self, t, feats):
@@ -940,8 +989,16 @@ class Model:
             cfg_id(f): self.named_const("LARGE_BLOB_MAX_FRAGMENT_LENGTH", "sizes", f) for f in ALL_CFGS}
         consts["VENDOR_FIRST"] = self.named_const("VendorOperation::FIRST", "operation", feats)
         consts["VENDOR_LAST"] = self.named_const("VendorOperation::LAST", "operation", feats)
-        consts["truncate_window"] = self.truncate_window()
+        try:
+            consts["truncate_window"] = self.truncate_window()
+        except Untranslatable:
+            consts["truncate_window"] = None        # reported by the `strhelpers` group
         t["consts"] = consts
+
+    def _t_strhelpers(self, t, feats):
+        self.check_str_helpers()
+        self.truncate_window()
+        t["str_helpers_ok"] = True
 
     def _t_fingerprints(self, t, feats):
         # fingerprints of hand-modelled functions
@@ -1301,8 +1358,8 @@ class Model:
         """normal form modulo renaming of local bindings (let / closure parameter / Ok-Err-Some
         binder), then without white space"""
         names = []
-        for m in re.finditer(r"\blet (?:mut )?(\w+)\b|\| (\w+) \||\b(?:Ok|Err|Some) \((\w+)\) =>", body):
-            n = m.group(1) or m.group(2) or m.group(3)
+        for m in re.finditer(r"\blet (?:mut )?(\w+)\b|\| (\w+) \||\b(?:Ok|Err|Some) \((\w+)\) =>|\bfor (\w+) in\b", body):
+            n = m.group(1) or m.group(2) or m.group(3) or m.group(4)
             if n and n not in names and n != "_" and n != "u":
                 names.append(n)
         for k, n in enumerate(names):
